@@ -27,7 +27,7 @@ def _prims(thorough: bool) -> typing.List[typing.Tuple[str, str, bool]]:
     """(tag, dsdl type expr, core)"""
     out = []
     widths = range(1, 65) if thorough else QUICK_WIDTHS
-    corew = {1, 7, 8, 9, 16, 17, 32, 33, 63, 64}
+    corew = {1, 7, 8, 9, 15, 16, 17, 31, 32, 33, 63, 64}  # every width adjacent to a storage-type boundary
     for n in widths:
         c = n in corew
         out.append((f"us{n}", f"saturated uint{n}", c))
